@@ -169,7 +169,7 @@ func c03RunImpl(bs []float64, ops []float64, isWrite []bool) (panicked bool, out
 		}
 		opts := prometheus.HistogramOpts{Name: "h", Help: "h", Buckets: in}
 		c03Calls++
-		if len(bs) > 0 && c03Calls%3 == 0 {
+		if len(bs) > 0 && !math.IsInf(bs[0], 1) && c03Calls%3 == 0 { // (with native buckets a layout that is empty once +Inf is stripped means no classic buckets at all)
 			// classic buckets keep their le semantics when native buckets are maintained next to them, also while the
 			// native side hits its bucket limit (resolution halving / zero-bucket widening swap and merge the counts)
 			opts.NativeHistogramBucketFactor = 1.1
